@@ -203,3 +203,56 @@ def r18_4(prog, out):
                               "accepted again depends on string values (not decided statically)" % n)
             else:
                 out.holds(key, prog.loc(pid), "components are stored as untransformed sub-slices")
+
+
+@rule("C18", "R18.5", "the project id ends at the first '/', the resource id is the whole remainder", floor=2)
+def r18_5(prog, out):
+    from slicing import Slicer
+    sl = Slicer(prog)
+    for label, ty in name_types(prog):
+        adt = prog.facts.adt(ty)
+        fields = [f["name"] for f in adt["variants"][0]["fields"]]
+        for pid in find_parser(prog, ty):
+            bi = prog.info(pid)
+            # the aggregate building the name
+            aggs = [(bb, i, rv) for (b2, bb, i, rv) in prog.constructions(ty) if b2 == pid]
+            if not aggs:
+                out.undecided("%s:components" % label, prog.loc(pid), "the parser does not build the name directly")
+                continue
+            bb, i, rv = aggs[-1]
+            names = rv.j["fields"]
+            proj_f = [f for f in names if "project" in f]
+            id_f = [f for f in names if f not in proj_f]
+            if len(proj_f) != 1 or len(id_f) != 1:
+                out.undecided("%s:components" % label, prog.loc(pid), "fields %s" % names)
+                continue
+            sp = sl.of(pid, rv.ops[names.index(proj_f[0])])
+            si = sl.of(pid, rv.ops[names.index(id_f[0])])
+            # named constants -> their values
+            for sx in (sp, si):
+                sx.consts = {prog.facts.consts[c]["str"] if isinstance(c, str) and c in prog.facts.consts and "str" in prog.facts.consts[c] else c for c in sx.consts}
+            seg = {v for v in str_consts(prog, find_display(prog, ty)) if len(v) >= 3 and v.startswith("/")}
+            # project: delimited by a search for the single character '/'
+            key = "%s:project-ends-at-first-slash" % label
+            delim_calls = {c.split("::")[-1] for c in sp.calls} & {"find", "split_once", "split", "splitn", "split_terminator", "char_indices", "position"}
+            uses = str_consts(prog, pid)
+            seg_search = [v for v in seg if uses.get(v) and ({u.split("::")[-1] for u in uses[v]} & {"find", "split_once", "split", "splitn", "rfind", "rsplit_once"})]
+            if seg_search and any(str(c) in seg_search for c in sp.consts):
+                out.violation(key, prog.loc(pid), "the project id is everything before the first %r rather than the text up to the first '/': project ids containing slashes "
+                              "(e.g. projects/a/b%sx) are accepted" % (seg_search[0], seg_search[0]))
+            elif delim_calls and any(str(c) in ("47", "/") for c in sp.consts):
+                out.holds(key, prog.loc(pid), "project id = text up to the first '/' (%s)" % sorted(delim_calls))
+            elif delim_calls:
+                out.undecided(key, prog.loc(pid), "delimiter of the project id not recognised (%s; consts %s)" % (sorted(delim_calls), sorted(map(str, sp.consts))[:4]))
+            else:
+                out.undecided(key, prog.loc(pid), "project id is not cut by a delimiter search")
+            # id: the remainder of the input, not one element of a split
+            key = "%s:id-is-remainder" % label
+            seg_iter = {c.split("::")[-1] for c in si.calls} & {"next", "nth", "next_back", "last", "split", "splitn", "rsplit", "split_terminator"}
+            if {"next", "nth", "next_back", "last"} & seg_iter and {"split", "splitn", "rsplit", "split_terminator"} & seg_iter:
+                out.violation(key, prog.loc(pid), "the id is one segment of a split of the input: whatever follows that segment is dropped, so names that differ "
+                              "in their id (e.g. .../orders/eu and .../orders/us) denote the same resource and are echoed differently from what was sent")
+            elif any(c.split("::")[-1] in ("get", "strip_prefix", "split_once", "split_at") for c in si.calls):
+                out.holds(key, prog.loc(pid), "id = the input after the literal segment, to the end")
+            else:
+                out.undecided(key, prog.loc(pid), "derivation of the id not recognised (%s)" % sorted(c.split("::")[-1] for c in si.calls)[:6])
